@@ -47,4 +47,50 @@ def renameTo (start : Nat) (sched sched' : List Nat) (n : Nat) : Nat :=
     | none => n
   else n
 
+/-! ## Phases: who may hand out which numbers
+
+`crates/samlang-optimization/src/lib.rs:93-124` `optimize_sources`: four times { a parallel round on
+a counter created at the heap's current length (`create_temp_counter`), `sync_temp_counter`, inlining
+(sequential `heap.alloc_temp_str`) }, a fifth parallel round + sync; then
+`samlang-compiler/src/lir_lowering.rs` (`compile_mir_to_lir`) allocates its temporaries with
+`heap.alloc_temp_str` again.  `H` is `heap.str_pointer_table.len()`, the next number the heap hands out.
+A parallel phase that draws `k` names issues exactly the block `[H, H + k)` whatever the interleaving
+(`temp_names_in_block`/`temp_names_onto_block`); `sync_temp_counter` raises `H` to the counter's value. -/
+
+inductive Phase where
+  /-- a parallel round drawing `k` names from a counter created at `H`; `sync` = whether
+  `heap.sync_temp_counter(&counter)` is called afterwards -/
+  | par (k : Nat) (sync : Bool)
+  /-- `k` sequential `heap.alloc_temp_str()` calls -/
+  | seq (k : Nat)
+  deriving Repr, DecidableEq
+
+/-- numbers issued by each phase, starting with heap length `H` -/
+def issued : Nat → List Phase → List (List Nat)
+  | _, [] => []
+  | H, .par k s :: rest => List.range' H k :: issued (if s then H + k else H) rest
+  | H, .seq k :: rest => List.range' H k :: issued (H + k) rest
+
+/-- heap length after the phases (what the next phase's counter starts from) -/
+def heapAfter : Nat → List Phase → Nat
+  | H, [] => H
+  | H, .par k s :: rest => heapAfter (if s then H + k else H) rest
+  | H, .seq k :: rest => heapAfter (H + k) rest
+
+def allSynced : List Phase → Bool
+  | [] => true
+  | .par _ s :: rest => s && allSynced rest
+  | .seq _ :: rest => allSynced rest
+
+def total : List Phase → Nat
+  | [] => 0
+  | .par k _ :: rest => k + total rest
+  | .seq k :: rest => k + total rest
+
+/-- the phase structure of `optimize_sources` followed by LIR lowering: `rounds` = (names drawn by
+the parallel round, temporaries of the inlining step) for the four loop iterations, `last` = names
+drawn by the fifth round, `lir` = temporaries of `compile_mir_to_lir`; `lastSync` = the final sync. -/
+def pipeline (rounds : List (Nat × Nat)) (last lir : Nat) (lastSync : Bool) : List Phase :=
+  rounds.flatMap (fun r => [.par r.1 true, .seq r.2]) ++ [.par last lastSync, .seq lir]
+
 end SamVerif.TempCounter
